@@ -1112,6 +1112,8 @@ class Cluster(object):
                     'ahead': any(e[1] > ents[1][1] and bytes(e[0][:1]) == b'\x02' for e in la)}}
             elif pid <= 0 and sn.child.get('st') in ('ok', 'fail'):
                 sn.child = {'st': 'none'}       # reaped by checkSerializing
+            elif pid <= 0 and sn.child.get('st') == 'run':
+                sn.child = {'st': 'none'}       # killed and reaped by the library itself (a newer snapshot was installed)
 
     def _record(self, act):
         self._track_children()
